@@ -461,6 +461,7 @@ static void gen_c10(plan_t *p, rng_t *r)
     int nops = rng_range(r, 1, 12 * sim_tier_scale());
     op_t *o;
     plan_knob(p, "alloc.fill", rng_range(r, 0, 4));
+    plan_knob(p, "alloc.zero", rng_chance(r, 1, 4)); plan_knob(p, "alloc.realloc0", rng_chance(r, 1, 4));      /* the two readings ISO C allows for a request of no bytes */
     plan_knob(p, "alloc.realloc", rng_range(r, 0, 2));
     plan_knob(p, "alloc.reuse", rng_range(r, 0, 2));
     if (rng_chance(r, 1, 10)) { o = plan_op(p, 0, "env", 1, (long)rng_chance(r, 1, 2)); op_str(o, "HOME", 4); op_str2(o, "", 0); }
